@@ -259,13 +259,15 @@ StopFaults == {"stop_native", "stop_in_callback", "stop_after_recovered_panic"}
 RefClass(n) == IF n \in NoPanicFaults THEN "nopanic" ELSE IF n \in ErrorFaults THEN "error"
                ELSE IF n \in StopFaults THEN "stop" ELSE "panic"
 
-Outcomes == {"nil", "panicerror", "ctxerr", "stoperr", "othererror", "hostpanic", "processdeath"}
+Outcomes == {"nil", "panicerror", "ctxerr", "stoperr", "othererror", "hostpanic", "processdeath", "buildpanic"}
 \* The property: what may come out of Run.  "othererror" is an error value that is neither a *PanicError nor
 \* the context's / Stop's error (e.g. "cannot show value of type chan int", a writer's error): the statement
 \* lists the error classes but also says faults are "reported as errors, never as host panics"; the reading
 \* chosen is the one under which today's intended behaviour passes - any returned error is fine, a panic
 \* leaving Run (or the death of the process) is not (no generated case calls Fatal or passes an invalid variable value).
-PropertyOutcomes == Outcomes \ {"hostpanic", "processdeath"}
+\* ("buildpanic": Build / BuildTemplate panicked for the generated case - strictly a clause of C04, reported here
+\* because these cases exist only in this family's space; a build ERROR is not an observation at all: "that builds")
+PropertyOutcomes == Outcomes \ {"hostpanic", "processdeath", "buildpanic"}
 
 (* ------------------------------------------------------------------ IMPLEMENTATION-SHAPED: convertPanic *)
 \* an instruction with a constant operand has the negated opcode; convertPanic lists some of them
@@ -412,7 +414,9 @@ ReferenceSane == RefOutcome(cs) \in PropertyOutcomes
 \* REFERENCE: showing any value in any template context either renders it or returns an error; Run never panics and
 \* the process does not die.  (These are values an embedder can pass for a declared global: none is an "invalid
 \* template variable value" in the sense of the documentation, which is about values not assignable to the variable.)
-ShowValues == {"nil_interface", "embed_unexported", "embed_unexported_ptr", "embed_unexported_nilptr", "ptr_embed_unexported",
+ShowValues == {"nil_ptr_value_error", "nil_ptr_value_html", "nil_ptr_value_css", "nil_ptr_value_js", "nil_ptr_value_json",
+   "nil_ptr_value_markdown", "nil_ptr_value_envstringer", "unsafe_pointer", "unsafe_pointer_nil", "struct_unsafe_pointer_field",
+   "nil_interface", "embed_unexported", "embed_unexported_ptr", "embed_unexported_nilptr", "ptr_embed_unexported",
    "slice_embed_unexported", "map_embed_unexported", "unexported_fields_only", "struct_chan_field", "struct_func_field",
    "nil_ptr_time", "nil_ptr_value_stringer", "nil_ptr_ptr_stringer", "nil_ptr_struct", "ptr_ptr_nil", "chan", "nil_chan",
    "func", "nil_func", "complex", "nil_map", "nil_slice", "map_int_key", "map_any_key", "map_struct_key", "slice_any_chan",
@@ -428,7 +432,10 @@ ShowContexts == ScriptContexts \cup StringContexts
 Boxes == {"static", "any"}
 ShowGrid == [value : ShowValues, ctx : ShowContexts, box : Boxes]
 ShowOk(outcome) == outcome \in PropertyOutcomes
-ValueClass(v) == CASE v \in {"nil_ptr_time", "nil_ptr_value_stringer"} -> "nil-pointer-to-value-receiver-stringer"
+ValueClass(v) == CASE v \in {"nil_ptr_time", "nil_ptr_value_stringer", "nil_ptr_value_error", "nil_ptr_value_html", "nil_ptr_value_css",
+                            "nil_ptr_value_js", "nil_ptr_value_json", "nil_ptr_value_markdown", "nil_ptr_value_envstringer"} ->
+                         "nil-pointer-to-type-with-value-receiver-show-method"
+                   [] v \in {"unsafe_pointer", "unsafe_pointer_nil", "struct_unsafe_pointer_field"} -> "unsafe-pointer"
                    [] v \in CyclicValues -> "cyclic"
                    [] v \in {"embed_unexported", "embed_unexported_ptr", "embed_unexported_nilptr", "ptr_embed_unexported",
                              "slice_embed_unexported", "map_embed_unexported"} -> "embedded-unexported-struct"
